@@ -9,6 +9,7 @@
 #include "algorithms/sequential/tbfalgorithmtsm.hpp"
 #include "core/tbftreetsm.hpp"
 #include "algorithms/periodic/tbfalgorithmperiodictoptree.hpp"
+#include "kernels/counterkernels/tbfinteractioncounter.hpp"
 #include "common.hpp"
 #include "trace_kernel.hpp"
 #include <algorithm>
@@ -113,6 +114,48 @@ std::string run_exec(const Cmd& c){
         }
     }
     out += " || " + join_trace(sink) + " || " + values(tree);
+    trace_sink() = nullptr;
+    return out;
+}
+
+// ---- interaction counters (C18): one wrapped kernel copy per mask, merged with Reduce in both orders ----
+//   execcnt d per H B mode stop nsplit m_1..m_nsplit N nums
+// output: dump || trace || K counters per copy || F merged forward || B merged backward || R values
+template <long D, bool Per>
+std::string run_exec_cnt(const Cmd& c){
+    using Conf = TbfSpacialConfiguration<double, D>;
+    using Space = TbfMortonSpaceIndex<D, Conf, Per>;
+    using Tree = TbfTree<double, double, D, unsigned long, 1, TagVal, TagVal, Space>;
+    using Kernel = TbfInteractionCounter<TraceKernel<double, Space>>;
+    using Algo = TbfAlgorithm<double, Kernel, Space>;
+    using Counters = typename Kernel::ReduceType;
+    const long H = c.L(3), B = c.L(4), mode = c.L(5), stop = c.L(6), nf = c.L(7);
+    std::vector<int> masks; size_t a = 8;
+    for(long k = 0 ; k < nf ; ++k) masks.push_back(int(c.L(a++)));
+    const long N = c.L(a++);
+    std::array<double, D> w, ctr; for(long k = 0 ; k < D ; ++k){ w[k] = 1; ctr[k] = 0.5; }
+    Conf conf(H, w, ctr);
+    const double scale = 16.0 * double(1L << (H-1));
+    std::vector<std::array<double, D>> pos(N);
+    for(long i = 0 ; i < N ; ++i) for(long k = 0 ; k < D ; ++k) pos[i][k] = double(c.L(a++)) / scale;
+    Tree tree(conf, pos, B, mode != 0);
+    tag_cells(tree);
+    TraceSink sink; trace_sink() = &sink;
+    std::string out = dump(tree);
+    std::vector<Counters> copies;
+    for(int m : masks){
+        std::unique_ptr<Algo> algo(new Algo(conf, stop));
+        algo->execute(tree, m);
+        algo->applyToAllKernels([&](const auto& k){ copies.push_back(k.getReduceData()); });
+    }
+    auto cs = [](const Counters& k){ return std::to_string(k.P2M) + " " + std::to_string(k.M2M) + " " + std::to_string(k.M2L) + " " + std::to_string(k.L2L)
+                                        + " " + std::to_string(k.L2P) + " " + std::to_string(k.P2P) + " " + std::to_string(k.P2PInner); };
+    out += " || " + join_trace(sink) + " || K ";
+    for(size_t k = 0 ; k < copies.size() ; ++k) out += (k ? " | " : "") + cs(copies[k]);
+    Counters f, b;
+    for(size_t k = 0 ; k < copies.size() ; ++k) f = Counters::Reduce(f, copies[k]);
+    for(size_t k = copies.size() ; k-- > 0 ; ) b = Counters::Reduce(b, copies[k]);
+    out += " || F " + cs(f) + " || B " + cs(b) + " || " + values(tree);
     trace_sink() = nullptr;
     return out;
 }
@@ -252,6 +295,15 @@ int main(int argc, char** argv){
             return "?dim";
         }
         const long d = c.L(1); const bool per = c.L(2) != 0;
+        if(c.tok[0] == "execcnt"){
+            switch(d*2 + (per?1:0)){
+            case 2: return run_exec_cnt<1,false>(c);
+            case 4: return run_exec_cnt<2,false>(c);
+            case 6: return run_exec_cnt<3,false>(c);
+            case 7: return run_exec_cnt<3,true>(c);
+            }
+            return "?dim";
+        }
         if(c.tok[0] == "exectsm"){
             switch(d*2 + (per?1:0)){
             case 2: return run_exec_tsm<1,false>(c);
